@@ -223,3 +223,51 @@ def _sigder_domain(tier, seed):
 
 
 _R["ecdsa.util.sigdecode_der"].domain = _sigder_domain
+
+
+# ---- C17: randrange ---------------------------------------------------------------------------------------------
+from pyvc.interp import SCallable
+from pyvc.sym import bitlen, shr, imax, SBytes, T
+import z3 as _z3
+
+
+def mk_entropy(ex):
+    """entropy(k): k fresh bytes (the next k bytes of the stream); every call is recorded in ex.draws"""
+    ex.draws = []
+
+    def model(ex_, args, kwargs, line):
+        (k,) = args
+        b = ex_.fresh_bytes("chunk")
+        ex_.assume(eq(blen(b), k))
+        ex_.draws.append((k, b))
+        return b
+    return SCallable("entropy", model)
+
+
+@contract("ecdsa.util.randrange", props=["C17", "C01"], order=Int, entropy=lambda ex, n: mk_entropy(ex))
+def _(c):
+    c.requires(lambda order: order >= 2)
+    c.loop(0, invariant=lambda: True)
+    c.returns(lambda ex: ex.fresh_int("k"))
+    c.ensures(lambda order, result: And_(1 <= result, result <= order - 1), "in-range")
+
+    def last_draw(ex, order, result):
+        # the value returned is the candidate computed from the LAST chunk drawn, every draw asks for the same number
+        # of bytes upper_256 = upper_2 // 8 + 1 with upper_2 = bit_length(order - 2) (or 1), and uses its top upper_2 bits
+        if not ex.draws:
+            return False
+        u2 = imax(bitlen(order - 2), 1)
+        u256 = u2 // 8 + 1
+        k, chunk = ex.draws[-1]
+        return And_(eq(k, u256), eq(result, shr(be(chunk), 8 * u256 - u2) + 1), *[eq(kk, u256) for kk, _ in ex.draws])
+    c.ensures(last_draw, "candidate-is-top-bits-of-last-chunk-plus-one")
+    c.ensures(lambda ex: len(ex.draws) == 1, "one-draw-per-iteration")
+
+
+def _randrange_field_apply(ex, F, vals, line):
+    from contracts.keys import mk_nonce
+    ex.n_fresh += 1
+    return mk_nonce(ex, F, "k_rand%d" % ex.n_fresh)
+
+
+_R["ecdsa.util.randrange"].field_apply = _randrange_field_apply
